@@ -693,10 +693,6 @@ theorem wireOf_resendOut_down (l : List (Nat × Nat)) : wireOf (resendOut false 
     simp only [resendOut, List.flatMap_cons] at ih ⊢
     rw [wireOf_append, ih]; simp [emit]
 
-/-- the wire block written while processing `<resumed h/>` resp. `<enabled/>` for a remaining list `l` -/
-def resendBlock (l : List (Nat × Nat)) : List Wire :=
-  if l.isEmpty then [] else (l.map fun e => Wire.pkt e.2) ++ [Wire.r]
-
 theorem wireOf_step_resumed_up (s : St) (h : Nat) :
     wireOf (step s (.resumed h true)).2 = resendBlock (keptPart h s.unacked) := by
   simp only [step, wireOf_append, wireOf_ackReports, List.nil_append, resendBlock]
